@@ -17,42 +17,44 @@
 //
 // <result> is `dom=..|.. idom=.. ch=..|.. df=..|..` (sets sorted), `panic`, or
 // `timeout` (watchdog per graph: a walk over a cyclic idom relation would not
-// terminate; 2 s up to 40 nodes, 60 s beyond - the quadratic iteration over
+// terminate; 2 s up to 40 nodes, 60 s up to 400, 240 s beyond - the quadratic iteration over
 // hash sets of a debug build needs more than a second on a 300-node chain).
 use parser::parse_definition;
 use program_structure::cfg::{BasicBlock, Cfg, IntoCfg};
 use program_structure::constants::Curve;
 use program_structure::report::ReportCollection;
 use program_structure::static_single_assignment::dominator_tree::DominatorTree;
-use program_structure::static_single_assignment::traits::DirectedGraphNode;
-use std::collections::HashSet;
+use program_structure::static_single_assignment::traits::{DirectedGraphNode, IndexSet};
 use std::io::Write;
 use std::sync::mpsc;
 use std::time::Duration;
 use verif_harness::{each_line, guarded, silence_panics};
 
 #[derive(Clone)]
+// [fourth audit] the node type is written against the ALIAS `IndexSet` of traits.rs and
+// the results are read through `.iter()`: another set type behind the alias (BTreeSet, a
+// HashSet with another hasher) or getters that return references still build.
 struct Node {
     index: usize,
-    preds: HashSet<usize>,
-    succs: HashSet<usize>,
+    preds: IndexSet,
+    succs: IndexSet,
 }
 
 impl DirectedGraphNode for Node {
     fn index(&self) -> usize {
         self.index
     }
-    fn predecessors(&self) -> &HashSet<usize> {
+    fn predecessors(&self) -> &IndexSet {
         &self.preds
     }
-    fn successors(&self) -> &HashSet<usize> {
+    fn successors(&self) -> &IndexSet {
         &self.succs
     }
 }
 
 fn graph(n: usize, edges: &[(usize, usize)]) -> Vec<Node> {
     let mut g: Vec<Node> =
-        (0..n).map(|i| Node { index: i, preds: HashSet::new(), succs: HashSet::new() }).collect();
+        (0..n).map(|i| Node { index: i, preds: IndexSet::default(), succs: IndexSet::default() }).collect();
     for &(a, b) in edges {
         g[a].succs.insert(b);
         g[b].preds.insert(a);
@@ -60,8 +62,8 @@ fn graph(n: usize, edges: &[(usize, usize)]) -> Vec<Node> {
     g
 }
 
-fn set(s: HashSet<usize>) -> String {
-    let mut v: Vec<usize> = s.into_iter().collect();
+fn set<'a>(s: impl Iterator<Item = &'a usize>) -> String {
+    let mut v: Vec<usize> = s.copied().collect();
     v.sort();
     v.iter().map(|x| x.to_string()).collect::<Vec<_>>().join(",")
 }
@@ -70,15 +72,15 @@ fn run(g: &[Node]) -> String {
     let n = g.len();
     match guarded(|| {
         let t = DominatorTree::new(g);
-        let dom: Vec<String> = (0..n).map(|i| set(t.get_dominators(i))).collect();
+        let dom: Vec<String> = (0..n).map(|i| set(t.get_dominators(i).iter())).collect();
         let idom: Vec<String> = (0..n)
             .map(|i| match t.get_immediate_dominator(i) {
                 Some(j) => j.to_string(),
                 None => "-".to_string(),
             })
             .collect();
-        let ch: Vec<String> = (0..n).map(|i| set(t.get_dominator_successors(i))).collect();
-        let df: Vec<String> = (0..n).map(|i| set(t.get_dominance_frontier(i))).collect();
+        let ch: Vec<String> = (0..n).map(|i| set(t.get_dominator_successors(i).iter())).collect();
+        let df: Vec<String> = (0..n).map(|i| set(t.get_dominance_frontier(i).iter())).collect();
         format!("dom={} idom={} ch={} df={}", dom.join("|"), idom.join(","), ch.join("|"), df.join("|"))
     }) {
         Some(s) => s,
@@ -114,10 +116,10 @@ fn cfg_line(src: &str) -> String {
     let mut positions_ok = true;
     for (pos, b) in blocks.iter().enumerate() {
         positions_ok = positions_ok && <BasicBlock as DirectedGraphNode>::index(b) == pos;
-        for &s in <BasicBlock as DirectedGraphNode>::successors(b) {
+        for &s in <BasicBlock as DirectedGraphNode>::successors(b).iter() {
             by_succ.push((pos, s));
         }
-        for &p in <BasicBlock as DirectedGraphNode>::predecessors(b) {
+        for &p in <BasicBlock as DirectedGraphNode>::predecessors(b).iter() {
             by_pred.push((p, pos));
         }
     }
@@ -170,7 +172,7 @@ impl Watch {
         if self.timeouts >= 8 {
             return "timeout".to_string(); // do not pile up spinning threads
         }
-        let limit = if g.len() <= 40 { 2 } else { 60 };
+        let limit = if g.len() <= 40 { 2 } else if g.len() <= 400 { 60 } else { 240 };
         let (tx, rx) = mpsc::channel();
         std::thread::spawn(move || {
             let _ = tx.send(run(&g));
